@@ -14,7 +14,9 @@ Proved here, for ALL maps / paths / traversals / streams, about the model in `Mo
   `ignored_values_leave_no_entry`, `search_answers_consumed_position`,
   `recorder_keeps_map_invariant`, `recorder_transparent_partial`;
 * entry-point loops: `valid_eq_plain_when_passing`, `multi_reports_every_failing_doc`,
-  `iter_valid_eq_plain_when_passing`, `iter_reports_every_failing_doc`.
+  `iter_valid_eq_plain_when_passing`, `iter_reports_every_failing_doc`;
+* document isolation: `multi_document_isolation`, `multi_independent_of_stale_recorder`,
+  `iter_document_isolation`, `multi_report_map_within_document`, `multi_reports_with_own_maps`.
 
 Only validated at run time (oracle stream `pathmap.oracle.jsonl`), not proved: that the value returned
 with a recorder equals the value returned without one (`recorder_transparent_Full`), that the locations
@@ -377,6 +379,106 @@ theorem iter_reports_every_failing_doc :
 theorem multi_deser_error_drops_reports (v : V) (r : R) (e : E) :
     multiValid [Doc.value v (some r), Doc.deErr e] [] [] = (Batch.err e : Batch V E R) := rfl
 
+/-! ## document isolation -/
+
+/-- **multi_document_isolation** (batch loop): whatever recorder object is left over from earlier
+    iterations (`stale`, arbitrary), the validating batch function computes exactly the abstract loop
+    over `DocR.alone` — each document's contribution (its value, or its report together with the
+    location map) is a function of that document alone. In particular the map handed to the error of
+    document i is `docMap` of document i's traversal: a fresh recorder, nothing from documents < i. -/
+theorem multi_document_isolation {P : Type} :
+    ∀ (ds : List (DocR α V E P)) (stale : Recorder α) (vs : List V) (es : List (P × Map α)),
+      multiValidRec ds stale vs es = multiValid (ds.map DocR.alone) vs es
+  | [], _, vs, es => by simp [multiValidRec, multiValid]
+  | .skip :: ds, stale, vs, es => by
+    rw [multiValidRec, List.map_cons, DocR.alone, multiValid, multi_document_isolation ds]
+  | .deErr e :: ds, stale, vs, es => by rw [multiValidRec, List.map_cons, DocR.alone, multiValid]
+  | .value v visit none :: ds, stale, vs, es => by
+    rw [multiValidRec, List.map_cons, DocR.alone, multiValid]
+    exact multi_document_isolation ds _ _ _
+  | .value v visit (some p) :: ds, stale, vs, es => by
+    rw [multiValidRec, List.map_cons, DocR.alone, multiValid]
+    exact multi_document_isolation ds _ _ _
+
+/-- the result does not depend on the recorder state the loop is entered with -/
+theorem multi_independent_of_stale_recorder {P : Type} (ds : List (DocR α V E P)) (r r' : Recorder α) :
+    multiValidRec ds r [] [] = multiValidRec ds r' [] [] := by
+  rw [multi_document_isolation, multi_document_isolation]
+
+/-- **multi_document_isolation** (iterator loop) -/
+theorem iter_document_isolation {P : Type} :
+    ∀ (ds : List (DocR α V E P × Bool)) (stale : Recorder α),
+      iterValidRec ds stale = iterValid (ds.map fun d => (d.1.alone, d.2))
+  | [], _ => rfl
+  | (.skip, b) :: ds, stale => by
+    rw [iterValidRec]
+    show _ = iterValid ((Doc.skip, b) :: ds.map fun d => (d.1.alone, d.2))
+    rw [iterValid, iter_document_isolation ds]
+  | (.deErr e, b) :: ds, stale => by
+    rw [iterValidRec]
+    show _ = iterValid ((Doc.deErr e, b) :: ds.map fun d => (d.1.alone, d.2))
+    rw [iterValid, iter_document_isolation ds]
+  | (.value v visit none, b) :: ds, stale => by
+    rw [iterValidRec]
+    show _ = iterValid ((Doc.value v none, b) :: ds.map fun d => (d.1.alone, d.2))
+    rw [iterValid]
+    exact congrArg _ (iter_document_isolation ds _)
+  | (.value v visit (some p), b) :: ds, stale => by
+    rw [iterValidRec]
+    show _ = iterValid ((Doc.value v (some (p, docMap visit)), b) :: ds.map fun d => (d.1.alone, d.2))
+    rw [iterValid]
+    exact congrArg _ (iter_document_isolation ds _)
+
+/-- every `(report, locations)` entry of the aggregate belongs to ONE document of the stream, and its
+    map contains only positions of that document's own traversal -/
+theorem multi_report_map_within_document {P : Type} :
+    ∀ (ds : List (DocR α V E P)) (p : P) (m : Map α), (p, m) ∈ reports (ds.map DocR.alone) →
+      ∃ v visit, DocR.value v visit (some p) ∈ ds ∧ m = docMap visit ∧ ∀ e ∈ m, e ∈ positions visit
+  | [], p, m, h => by simp [reports] at h
+  | d :: ds, p, m, h => by
+    have tail : (p, m) ∈ reports (ds.map DocR.alone) →
+        ∃ v visit, DocR.value v visit (some p) ∈ d :: ds ∧ m = docMap visit ∧ ∀ e ∈ m, e ∈ positions visit := by
+      intro h'
+      obtain ⟨v, visit, h1, h2, h3⟩ := multi_report_map_within_document ds p m h'
+      exact ⟨v, visit, List.mem_cons_of_mem _ h1, h2, h3⟩
+    cases d with
+    | skip => exact tail (by simpa [DocR.alone, reports] using h)
+    | deErr e => exact tail (by simpa [DocR.alone, reports] using h)
+    | value v visit rep =>
+      cases rep with
+      | none => exact tail (by simpa [DocR.alone, reports] using h)
+      | some q =>
+        simp only [List.map_cons, DocR.alone, reports, List.mem_cons, Prod.mk.injEq] at h
+        rcases h with ⟨rfl, rfl⟩ | h
+        · exact ⟨v, visit, by simp, rfl, recorded_paths_are_tree_paths_doc visit⟩
+        · exact tail h
+
+/-- batch form used by the oracle: when every document deserializes, the aggregate lists, for each
+    failing document in order, its report with the map of that document alone -/
+theorem multi_reports_with_own_maps {P : Type} (ds : List (DocR α V E P)) (stale : Recorder α)
+    (h : ∀ d ∈ ds, d.alone.isDeErr = false) :
+    multiValidRec ds stale [] [] =
+      if (reports (ds.map DocR.alone)).isEmpty then .ok (passing (ds.map DocR.alone))
+      else .invalid (reports (ds.map DocR.alone)) := by
+  rw [multi_document_isolation]
+  apply multi_reports_every_failing_doc
+  intro d hd
+  obtain ⟨d', hd', rfl⟩ := List.mem_map.mp hd
+  exact h d' hd'
+
+/-- what the isolation theorems exclude: the same loop with ONE recorder created before the loop whose
+    map is swapped out only when a document fails. -/
+private def multiValidShared {P : Type} :
+    List (DocR α V E P) → Recorder α → List V → List (P × Map α) → Batch V E (P × Map α)
+  | [], _, values, errs => if errs.isEmpty then .ok values else .invalid errs
+  | .skip :: ds, rec, values, errs => multiValidShared ds rec values errs
+  | .deErr e :: _, _, _, _ => .err e
+  | .value v visit report :: ds, rec, values, errs =>
+    let recorder := (record visit rec).2
+    match report with
+    | none => multiValidShared ds recorder (values ++ [v]) errs
+    | some p => multiValidShared ds { recorder with map := [] } values (errs ++ [(p, recorder.map)])
+
 /-! ## non-vacuity examples -/
 
 section Examples
@@ -435,6 +537,22 @@ example : positions demoIgnored = [([], 100), ([K "a"], 3)] := by decide
 example : ignoredAt demoIgnored = [[K "defs"]] := by decide
 /-- hypothesis of `recorded_paths_complete` is satisfiable on a traversal with an ignored value -/
 example : Consistent demoIgnored := by unfold Consistent; decide
+
+/-- document isolation on `display_name: fine` / `---` / `displayName: x`: the second document's map has
+    only its own key; with a shared recorder it would also hold the first document's `display_name` -/
+private def isoStream : List (DocR Nat Nat Unit String) :=
+  [.value 1 (.map 10 [(some "display_name".toList, 11, .leaf true)]) none,
+   .value 2 (.map 30 [(some "displayName".toList, 31, .leaf true)]) (some "display_name too short")]
+
+example : multiValidRec isoStream Recorder.new [] [] =
+    .invalid [("display_name too short", [([], 30), ([K "displayName"], 31)])] := rfl
+example : multiValidShared isoStream Recorder.new [] [] =
+    .invalid [("display_name too short", [([], 30), ([K "display_name"], 11), ([K "displayName"], 31)])] := rfl
+/-- … and the stale entry would win the exact pass for the reported path `display_name` -/
+example : search [(([] : Path), 30), ([K "display_name"], 11), ([K "displayName"], 31)] [K "display_name"]
+    = some (11, "display_name".toList) := by decide
+example : search [(([] : Path), 30), ([K "displayName"], 31)] [K "display_name"]
+    = some (31, "displayName".toList) := by decide
 
 /-- a stream with two failing documents out of four: both are reported, in order -/
 example : multiValid [Doc.value 1 none, .value 2 (some "r2"), .skip, .value 3 (some "r3"), .value 4 none] [] []
